@@ -59,15 +59,25 @@ def numeric_evaluable(q):
     return False
 
 
+def identity_evaluable(q):
+    if numeric_evaluable(q):
+        return True
+    # a top-level (possibly scaled) standard deviation of evaluable arguments
+    if q[0] == 'red' and q[1] in ('std', 'std_sample', 'std_pop', 'median'):
+        return all(numeric_evaluable(a) for a in q[2])
+    return False
+
+
 def same_function(q1, q2, rng, trials=24):
     """polynomial-identity style test: do two closed forms agree on random rational points?"""
     if q1 == q2:
         return True
-    if not (numeric_evaluable(q1) and numeric_evaluable(q2)):
+    if not (identity_evaluable(q1) and identity_evaluable(q2)):
         return False
     atoms = sorted(X.data_atoms(q1) | X.data_atoms(q2), key=repr)
     for _ in range(trials):
         env = {a: Fr(rng.randint(-40, 40), rng.choice((1, 2, 3, 4))) for a in atoms}
+        env['__identity__'] = True
         try:
             if X.eval_num(q1, env) != X.eval_num(q2, env):
                 return False
